@@ -67,6 +67,8 @@
 #include <stdlib.h>
 #include <string.h>
 #include <assert.h>
+#include <signal.h>
+#include <unistd.h>
 
 #define NH   32
 #define CAP  (1 << 16)
@@ -458,14 +460,25 @@ static void exec_cmd(int nt, char **t)
         if (poke) { NEEDINT(t[3], v); if (v < 0 || v > 255) BAD; }
         int ws = 1;
         uint8_t *w;
+        size_t n = bsize(UB(h));
+        long o = off < 0 ? (long)off + (long)n : off;
+        bool dom = o >= 0 && o < (long)n;
         int err = uref_mode ? uref_block_write(R[h], off, &ws, &w)
                             : ubuf_block_write(B[h], off, &ws, &w);
         if (err == UBASE_ERR_BUSY) { printf("busy\n"); return; }
-        if (!ubase_check(err) || ws != 1) { printf("err\n"); return; }
+        if (!ubase_check(err)) { printf("err\n"); return; }
+        if (ws != 1) {
+            /* mapped, but not the octet that was asked for */
+            if (uref_mode) uref_block_unmap(R[h], off); else ubuf_block_unmap(B[h], off);
+            printf("short\n");
+            return;
+        }
         if (poke)
             *w = (uint8_t)v;
         err = uref_mode ? uref_block_unmap(R[h], off) : ubuf_block_unmap(B[h], off);
-        printf(ubase_check(err) ? "ok\n" : "err\n");
+        if (!ubase_check(err)) { printf("unmaperr\n"); return; }
+        /* an offset outside the block was accepted: read the result back */
+        result_mut(err, dom, h);
         return;
     }
     if (!strcmp(c, "free")) {
@@ -712,8 +725,23 @@ static void teardown(void)
     umem_mgr_release(umem_mgr);
 }
 
+/* A command of the code under test that does not return (e.g. a segment
+ * chain walked for ever) must cost seconds, not the time-out of the whole
+ * batch: every command runs under an alarm; on expiry the process exits with
+ * status 5 WITHOUT a result line for that command, which the check reads as
+ * "this command hung" (the results of earlier commands are already flushed). */
+static void on_alarm(int sig)
+{
+    (void)sig;
+    _exit(5);
+}
+
 int main(int argc, char **argv)
 {
+    unsigned alarm_s = 10;
+    if (getenv("REPLAY_ALARM_S") != NULL && atoi(getenv("REPLAY_ALARM_S")) > 0)
+        alarm_s = atoi(getenv("REPLAY_ALARM_S"));
+    signal(SIGALRM, on_alarm);
     g_pool = argint(argc, argv, "pool", 0);
     g_spool = argint(argc, argv, "spool", g_pool);
     g_pre = argint(argc, argv, "pre", 0);
@@ -737,13 +765,15 @@ int main(int argc, char **argv)
             printf("skip\n");
             continue;
         }
+        alarm(alarm_s);
         if (!strcmp(t[0], "reset")) {   /* next execution: everything anew */
             teardown();
             setup();
             printf("reset\n");
-            continue;
-        }
-        exec_cmd(nt, t);
+        } else
+            exec_cmd(nt, t);
+        fflush(stdout);
+        alarm(0);
     }
 
     teardown();
